@@ -73,8 +73,8 @@ CLAIMS = {
   technique="Coq simulation proof + wrapper-level lemmas + differential correspondence of hook-call logs"),
  "C15": dict(
   category="proof",
-  text="Coq, about the compiler model (Compile.v: get_fields, check_flags, the per-rule error order, literal/range decoding in generation order, char and extern rules): C15_terminates (if a rank decreasing along every include exists, a fuel bound computed from the grammar suffices for every rule: the recursion over includes is bounded and the answer is code or an error), C15_cycle_overflows / C15_cycle_is_not_ranked (an include cycle diverges for every fuel: the stack overflow recorded as known finding), C15_accepted_rules_respect_the_restrictions (whenever a rule is accepted, none of the documented restrictions is broken anywhere in its body, at any depth and through any chain of includes: fields in lookaheads, missing/@char/@extern includes, invalid code points, non-ASCII i-literals, @string+@export, skipping Whitespace, @memoize/@leftrec without Clone, @export/@position on a plain override, multi-type @: outside arity One, mixing @: with named fields), C15_include_resolves_only_normal_rules, C15_invalid_code_points, C15_templates_never_panic (the panic sites inside the code templates - the two expects of field.rs, choice.rs `Outer field cannot be One`, the sequence.rs arity assert - are unreachable for every grammar, at any depth, through includes). Correspondence: ~900 (quick) grammar texts - valid, built to violate each restriction (one or two violating rules spliced in), character mutations, garbage, identifier spellings, include cycles, deep nesting - each compiled in its own process; outcome, failing rule, error class and payload equal the model's. Oracle: no panic/abort/hang outside the four classes recorded as known findings; peginator-cli exit status, Compile::run and run_exit_on_error report every failure class.",
-  note=TB + "Identifier construction, derive names, include cycles and deep nesting still panic/overflow: four classes recorded as known findings, each characterised by a predicate of the model (idents_ok, derives_ok, GOverflow, nesting depth).",
+  text="Coq, about the compiler model (Compile.v: get_fields, check_flags, the per-rule error order, literal/range decoding in generation order, char and extern rules): C15_terminates (if a rank decreasing along every include exists, a fuel bound computed from the grammar suffices for every rule: the recursion over includes is bounded and the answer is code or an error), C15_never_overflows (with the include-cycle check the compiler now makes first - fact cycles_checked - NO hypothesis on the grammar is left: for every grammar with distinct rule names a fuel bound computed from the grammar suffices; proved through acyclic_ranked: no chain of includes longer than the number of rules => the include depth is a rank), C15_cycles_are_rejected, C15_bad_identifiers_are_rejected (fact idents_checked), C15_cycle_overflows_unchecked / C15_cycle_is_not_ranked (without the check an include cycle diverges for every fuel: the repaired defect), C15_accepted_rules_respect_the_restrictions (whenever a rule is accepted, none of the documented restrictions is broken anywhere in its body, at any depth and through any chain of includes: fields in lookaheads, missing/@char/@extern includes, invalid code points, non-ASCII i-literals, @string+@export, skipping Whitespace, @memoize/@leftrec without Clone, @export/@position on a plain override, multi-type @: outside arity One, mixing @: with named fields), C15_include_resolves_only_normal_rules, C15_invalid_code_points, C15_templates_never_panic (the panic sites inside the code templates - the two expects of field.rs, choice.rs `Outer field cannot be One`, the sequence.rs arity assert - are unreachable for every grammar, at any depth, through includes). Correspondence: ~900 (quick) grammar texts - valid, built to violate each restriction (one or two violating rules spliced in), character mutations, garbage, identifier spellings, include cycles, deep nesting - each compiled in its own process; outcome, failing rule, error class and payload equal the model's. Oracle: no panic/abort/hang outside the four classes recorded as known findings; peginator-cli exit status, Compile::run and run_exit_on_error report every failure class.",
+  note=TB + "Identifier construction, derive names and include cycles panicked / overflowed the stack on the pinned tree: repaired by four fix: commits (f4a0a90, 1eb168c, f98b422, 6852e65). Deep nesting (> ~1500 levels) still overflows the stack of the recursive-descent front end: one open known finding. The user context type is configured through an API call outside Grammar::generate_code and is not part of the quantifier.",
   technique="Coq proofs about a total compiler model (termination under well-founded includes, restrictions imply rejection) + per-process differential runs against the real front end and generator + exit-status checks of the tools"),
  "C16": dict(
   category="proof",
